@@ -72,5 +72,8 @@ CompileOK(c) == /\ (c.ret > 0) = (c.errors > 0)
                 /\ \A i \in DOMAIN c.msgs : c.msgs[i] > 0
                 /\ \A i \in DOMAIN c.lines : c.lines[i] >= 0      \* errors detected at end of input carry line 0
 \* after the fault sequence: the health check observed the normal result, and the heap is back to the baseline
-RunOK(c) == c.health = c.health_normal /\ c.heap_delta = 0
+\* and a failure that every operation absorbed (all of them returned what they return without it) changes nothing in what the
+\* scans report: "returns an error or completes correctly"
+RunOK(c) == /\ c.health = c.health_normal /\ c.heap_delta = 0
+            /\ (("absorbed" \in DOMAIN c /\ c.absorbed) => c.same_results)
 =============================================================================
